@@ -1268,7 +1268,7 @@ func (c *codegen) Visit(node ast.Node) ast.Visitor {
 			c.emitCloneIfArray(typ)
 		}
 		// Do not swap for builtin functions.
-		if !isBuiltin && (f != nil && !isSyscall(f)) {
+		if !isBuiltin && ((f != nil && !isSyscall(f)) || isFunc || isFuncValue) {
 			typ, ok := c.typeOf(n.Fun).(*types.Signature)
 			if ok && typ.Variadic() && !n.Ellipsis.IsValid() {
 				// pack variadic args into an array only if last argument is not of form `...`
